@@ -29,6 +29,6 @@ func init() {
 	rec.Assume("rhh.HashMap: values are non-nil (Get returns nil for a missing key, Keys/Elem treat nil as an empty slot, as the tsi1 callers do); load factors 25..90 as used by callers (80, 90)")
 	rec.Assume("tsdb.SeriesIDSet: ids are < 2^32 — the implementation stores uint32(id) in a 32-bit roaring bitmap by explicit cast, and series ids are small sequence numbers in every caller; larger ids alias (2^32+5 is reported as 5) and are outside the generated domain")
 	rec.Assume("SeriesIDSet binary operations are never given the receiver itself where the implementation takes both locks (Merge(s), Diff(s) self-deadlock; no caller does this); Equals and MergeInPlace guard against it and are exercised with the receiver")
-	rec.Assume("bloom.Filter false-positive rate is only reported (coverage.bloom_false_positive_rate), not asserted; asserted are: no false negatives, an empty filter contains nothing, at most k bits per inserted key, Merge = filter of the union")
+	rec.Assume("bloom.Filter false-positive rate is only reported (coverage.bloom_false_positive_rate), not asserted; asserted are: no false negatives, an empty filter contains nothing, at most k bits per inserted key, Contains(v) is positive exactly when the bits set by Insert(v) are all set, Merge = filter of the union")
 	rec.Assume("reference models are Go maps plus sort; single-goroutine histories only (concurrent use is not part of this property)")
 }
